@@ -21,12 +21,18 @@
      `AddWithCount` calls (no side condition at all), the errors and every observer agree with the regenerated
      sketch over the model stores `Store.new .dense`; `dense_*_param` abbreviations of the generic parametricity
      theorems.
+  4. The same for the regenerated `CollapsingLowestDenseStore` (namespace `DDS.GenLowSketch`, second half of the
+     file): `GLS n` (bin limit as a type index; `Add`, `AddWithCount`, `MergeWith`, `Copy`, `Clear` are the
+     store's own regenerated methods, the others the promoted methods of the embedded `DenseStore`, as in Go),
+     `LSim x st`: `∃ d, x.g = toLow n d ∧ st = .d d ∧ d.kind = .low n` (exact again, every index admissible),
+     `lsim_*`, `lowStoreSim n : StoreSim (GLS n) Store`, `low_runAdds`, `low_history_observers`.
 
   No fuel hypothesis appears in the statements.  Core Lean only.
 -/
 import DDS.Proofs.GenStoreSim
 import DDS.Proofs.GenDense
 import DDS.Proofs.GenDenseEncode
+import DDS.Proofs.GenCollapsingLow
 
 namespace DDS.GenDenseSketch
 
@@ -381,3 +387,364 @@ theorem dense_AddWithCount_param {a : DDSketch M GDS} {b : DDSketch M Store} (h 
 end sketch
 
 end DDS.GenDenseSketch
+
+/-! ## the lowest-collapsing store -/
+
+namespace DDS.GenLowSketch
+
+open DDS DDS.GoSem DDS.DStore DDS.Gen.Dense DDS.GenStoreSim
+open DDS.GenDense (GS GLow toGen ofGen toLow ofLow toRes toRes_some toRes_none toLow_DenseStore reweightFuel)
+open DDS.GenPagSketch (okOr okOr_ok runAdds)
+
+/-- the regenerated `CollapsingLowestDenseStore`; the bin limit is a type index (`MergeWith` of the interface is
+    between stores of one sketch family; the regenerated fast path accepts any limit on the argument) -/
+structure GLS (n : Nat) where
+  g : GLow
+
+variable {n : Nat}
+
+instance : Inhabited (GLS n) := ⟨⟨NewCollapsingLowestDenseStore (n : Int)⟩⟩
+
+/-! ### the methods: `Add`, `AddWithCount`, `MergeWith`, `Copy`, `Clear` are the store's own, the others are the
+    promoted methods of the embedded `DenseStore` -/
+
+def gAdd (x : GLS n) (i : Int) : GLS n :=
+  ⟨okOr (CollapsingLowestDenseStore.Add (GenLow.lowFuel n (ofLow x.g)) x.g i) x.g⟩
+
+def gAddWithCount (x : GLS n) (i : Int) (c : F64) : GLS n :=
+  match ratOfF64 c with
+  | some w => ⟨okOr (CollapsingLowestDenseStore.AddWithCount (GenLow.lowFuel n (ofLow x.g)) x.g i w) x.g⟩
+  | none => x
+
+def gCopy (x : GLS n) : GLS n := ⟨CollapsingLowestDenseStore.Copy x.g⟩
+
+def gClear (x : GLS n) : GLS n := ⟨okOr (CollapsingLowestDenseStore.Clear 1 x.g) x.g⟩
+
+def gIsEmpty (x : GLS n) : Bool := DenseStore.IsEmpty x.g.DenseStore
+
+def gTotalCount (x : GLS n) : F64 := .fin (DenseStore.TotalCount x.g.DenseStore)
+
+def gMinIndex (x : GLS n) : Int × GoErr := DenseStore.MinIndex x.g.DenseStore
+
+def gMaxIndex (x : GLS n) : Int × GoErr := DenseStore.MaxIndex x.g.DenseStore
+
+def gKeyAtRankQ (x : GLS n) (r : Rat) : Int := okOr (DenseStore.KeyAtRank 1 x.g.DenseStore r) 0
+
+def gKeyAtRank (x : GLS n) (r : F64) : Int :=
+  match r with
+  | .fin q => gKeyAtRankQ x q
+  | .ninf => gKeyAtRankQ x 0
+  | _ => (gMaxIndex x).1
+
+def gMergeWith (x o : GLS n) : GLS n :=
+  ⟨okOr (CollapsingLowestDenseStore.MergeWith (GenLow.mergeFuel n (ofLow x.g) (ofLow o.g)) x.g o.g) x.g⟩
+
+/-- `Reweight` is the embedded `DenseStore`'s: it rewrites the embedded store only -/
+def gReweight (x : GLS n) (w : F64) : GLS n × GoErr :=
+  if F64.le w (.fin 0) then (x, GenSketch.errStoreReweight)
+  else match w with
+    | .fin q =>
+      match DenseStore.Reweight (reweightFuel (ofGen x.g.DenseStore)) x.g.DenseStore q with
+      | .ok (g', e) => (⟨{ x.g with DenseStore := g' }⟩, e)
+      | _ => (x, GoErr.nil)
+    | _ => (x, GoErr.nil)
+
+def gEncode (x : GLS n) (b : List (BitVec 8)) (t : Gen.Encoding.FlagType) : GLS n × List (BitVec 8) :=
+  (x, okOr (DenseStore.Encode (GenDenseEncode.encodeFuel (ofGen x.g.DenseStore)) x.g.DenseStore b t) b)
+
+def gForEachList (x : GLS n) : List (Int × F64) :=
+  ((ofLow x.g).binsList.getD []).map (fun p => (p.1, F64.fin p.2))
+
+@[reducible] def baseI : StoreI (GLS n) where
+  Add := gAdd
+  AddWithCount := gAddWithCount
+  Copy := gCopy
+  Clear := gClear
+  IsEmpty := gIsEmpty
+  MaxIndex := gMaxIndex
+  MinIndex := gMinIndex
+  TotalCount := gTotalCount
+  KeyAtRank := gKeyAtRank
+  MergeWith := gMergeWith
+  Reweight := gReweight
+  Encode := gEncode
+  ForEachList := gForEachList
+  DecodeAndMergeWith x b _ := (x, b, GoErr.nil)
+
+def gDecode (x : GLS n) (b : List (BitVec 8)) (sub : Gen.Encoding.SubFlag) : GLS n × List (BitVec 8) × GoErr :=
+  match @Gen.StoreDecode.DecodeAndMergeWith (GLS n) baseI (3 * b.length + 64) x b sub with
+  | .ok r => r
+  | _ => (x, b, GoErr.nil)
+
+instance (priority := low) glStoreI : StoreI (GLS n) where
+  Add := gAdd
+  AddWithCount := gAddWithCount
+  Copy := gCopy
+  Clear := gClear
+  IsEmpty := gIsEmpty
+  MaxIndex := gMaxIndex
+  MinIndex := gMinIndex
+  TotalCount := gTotalCount
+  KeyAtRank := gKeyAtRank
+  MergeWith := gMergeWith
+  Reweight := gReweight
+  Encode := gEncode
+  ForEachList := gForEachList
+  DecodeAndMergeWith := gDecode
+
+@[simp] theorem gls_add (x : GLS n) (i : Int) : StoreI.Add x i = gAdd x i := rfl
+@[simp] theorem gls_addWithCount (x : GLS n) (i : Int) (c : F64) :
+    StoreI.AddWithCount x i c = gAddWithCount x i c := rfl
+@[simp] theorem gls_copy (x : GLS n) : StoreI.Copy x = gCopy x := rfl
+@[simp] theorem gls_clear (x : GLS n) : StoreI.Clear x = gClear x := rfl
+@[simp] theorem gls_isEmpty (x : GLS n) : StoreI.IsEmpty x = gIsEmpty x := rfl
+@[simp] theorem gls_maxIndex (x : GLS n) : StoreI.MaxIndex x = gMaxIndex x := rfl
+@[simp] theorem gls_minIndex (x : GLS n) : StoreI.MinIndex x = gMinIndex x := rfl
+@[simp] theorem gls_totalCount (x : GLS n) : StoreI.TotalCount x = gTotalCount x := rfl
+@[simp] theorem gls_keyAtRank (x : GLS n) (r : F64) : StoreI.KeyAtRank x r = gKeyAtRank x r := rfl
+@[simp] theorem gls_mergeWith (x o : GLS n) : StoreI.MergeWith x o = gMergeWith x o := rfl
+@[simp] theorem gls_reweight (x : GLS n) (w : F64) : StoreI.Reweight x w = gReweight x w := rfl
+
+/-! ### fuel of the model image -/
+
+theorem lowFuel_ofLow (m : Int) (d : DStore) : GenLow.lowFuel n (ofLow (toLow m d)) = GenLow.lowFuel n d := rfl
+
+theorem mergeFuel_ofLow (m m' : Int) (d o : DStore) :
+    GenLow.mergeFuel n (ofLow (toLow m d)) (ofLow (toLow m' o)) = GenLow.mergeFuel n d o := rfl
+
+/-! ### the simulation relation: exact -/
+
+/-- the regenerated store is the image of the model store of kind `.low n` the model side holds -/
+def LSim (x : GLS n) (st : Store) : Prop :=
+  ∃ d : DStore, x.g = toLow (n : Int) d ∧ st = .d d ∧ d.kind = .low n
+
+theorem lsim_new : LSim (⟨NewCollapsingLowestDenseStore (n : Int)⟩ : GLS n) (Store.new (.low n)) :=
+  ⟨DStore.new (.low n), GenLow.new_eq n, rfl, rfl⟩
+
+theorem lsim_isEmpty {x : GLS n} {st : Store} (h : LSim x st) :
+    (StoreI.IsEmpty x : Bool) = StoreI.IsEmpty st := by
+  obtain ⟨d, hx, rfl, _⟩ := h
+  simp only [gls_isEmpty, gIsEmpty, hx, toLow_DenseStore, GenDense.isEmpty_eq, GenSketch.store_isEmpty,
+    Store.isEmpty]
+
+theorem lsim_totalCount {x : GLS n} {st : Store} (h : LSim x st) :
+    (StoreI.TotalCount x : F64) = StoreI.TotalCount st := by
+  obtain ⟨d, hx, rfl, _⟩ := h
+  simp only [gls_totalCount, gTotalCount, hx, toLow_DenseStore, GenDense.totalCount_eq,
+    GenSketch.store_totalCount, Store.totalCount]
+
+theorem lsim_minIndex {x : GLS n} {st : Store} (h : LSim x st) :
+    (StoreI.MinIndex x : Int × GoErr) = StoreI.MinIndex st := by
+  obtain ⟨d, hx, rfl, _⟩ := h
+  simp only [gls_minIndex, gMinIndex, hx, toLow_DenseStore, GenDense.minIndex_eq, GenSketch.store_minIndex,
+    GenSketch.storeMinIndex, Store.minIndex?, GenDenseSketch.errMin_eq]
+  cases d.minIndex? <;> rfl
+
+theorem lsim_maxIndex {x : GLS n} {st : Store} (h : LSim x st) :
+    (StoreI.MaxIndex x : Int × GoErr) = StoreI.MaxIndex st := by
+  obtain ⟨d, hx, rfl, _⟩ := h
+  simp only [gls_maxIndex, gMaxIndex, hx, toLow_DenseStore, GenDense.maxIndex_eq, GenSketch.store_maxIndex,
+    GenSketch.storeMaxIndex, Store.maxIndex?, GenDenseSketch.errMax_eq]
+  cases d.maxIndex? <;> rfl
+
+theorem lsim_keyAtRank {x : GLS n} {st : Store} (h : LSim x st) (r : F64) :
+    (StoreI.KeyAtRank x r : Int) = StoreI.KeyAtRank st r := by
+  obtain ⟨d, hx, rfl, _⟩ := h
+  simp only [gls_keyAtRank, gKeyAtRank, gKeyAtRankQ, gMaxIndex, GenSketch.store_keyAtRank,
+    Sketch.storeKeyAtRank, hx, toLow_DenseStore, GenDense.keyAtRank_eq, okOr_ok, GenDense.maxIndex_eq,
+    Store.keyAtRank, Store.maxIndex?]
+  cases r with
+  | fin q => rfl
+  | ninf => rfl
+  | pinf => cases d.maxIndex? <;> rfl
+  | nan => cases d.maxIndex? <;> rfl
+
+/-! ### mutators -/
+
+theorem lsim_addWithCount {x : GLS n} {st : Store} (h : LSim x st) (i : Int) (c : F64) :
+    LSim (StoreI.AddWithCount x i c : GLS n) (StoreI.AddWithCount st i c) := by
+  obtain ⟨d, hx, rfl, hk⟩ := id h
+  obtain ⟨g⟩ := x
+  simp only at hx
+  subst hx
+  cases c with
+  | fin w =>
+    simp only [gls_addWithCount, gAddWithCount, ratOfF64, lowFuel_ofLow, GenSketch.store_addWithCount,
+      GenSketch.storeAddF, Sketch.addF, Store.addWithCount]
+    rw [GenLow.addWithCount_rel _ n d i w hk (Nat.le_refl _)]
+    cases hm : d.addWithCount i w with
+    | none => exact ⟨d, rfl, rfl, hk⟩
+    | some d' => exact ⟨d', rfl, rfl, GenLow.addWithCount_kind d d' n i w hk hm⟩
+  | pinf => exact h
+  | ninf => exact h
+  | nan => exact h
+
+theorem lsim_add {x : GLS n} {st : Store} (h : LSim x st) (i : Int) :
+    LSim (StoreI.Add x i : GLS n) (StoreI.Add st i) := by
+  obtain ⟨d, hx, rfl, hk⟩ := h
+  obtain ⟨g⟩ := x
+  simp only at hx
+  subst hx
+  simp only [gls_add, gAdd, lowFuel_ofLow, GenSketch.store_add, Store.addWithCount]
+  rw [GenLow.add_rel _ n d i hk (Nat.le_refl _)]
+  cases hm : d.addWithCount i 1 with
+  | none => exact ⟨d, rfl, rfl, hk⟩
+  | some d' => exact ⟨d', rfl, rfl, GenLow.addWithCount_kind d d' n i 1 hk hm⟩
+
+theorem lsim_clear {x : GLS n} {st : Store} (h : LSim x st) :
+    LSim (StoreI.Clear x : GLS n) (StoreI.Clear st) := by
+  obtain ⟨d, hx, rfl, hk⟩ := h
+  refine ⟨d.clear, ?_, rfl, hk⟩
+  simp only [gls_clear, gClear, hx, GenLow.clear_rel, okOr_ok]
+
+theorem lsim_copy {x : GLS n} {st : Store} (h : LSim x st) :
+    LSim (StoreI.Copy x : GLS n) (StoreI.Copy st) := by
+  obtain ⟨d, hx, rfl, hk⟩ := h
+  refine ⟨d, ?_, rfl, hk⟩
+  simp only [gls_copy, gCopy, hx, GenLow.copy_eq]
+
+/-- the model's same-kind merge keeps the kind -/
+theorem mergeSame_kind (s t o : DStore) (hk : s.kind = .low n) (h : s.mergeSame o = some t) :
+    t.kind = .low n := by
+  unfold DStore.mergeSame at h
+  split at h
+  · cases h; exact hk
+  · by_cases hc : o.minIndex < s.minIndex ∨ o.maxIndex > s.maxIndex
+    · simp only [hc, if_true, Option.bind_eq_bind] at h
+      cases hx : s.extendRange o.minIndex o.maxIndex with
+      | none => rw [hx] at h; cases h
+      | some s1 =>
+        have hk1 := GenLow.extendRange_kind s s1 n _ _ hk hx
+        simp only [hx, Option.bind_some, hk1, Option.pure_def, Option.bind_eq_some_iff] at h
+        obtain ⟨b, _, h3⟩ := h
+        cases h3
+        rfl
+    · simp only [hc, if_false, hk, Option.pure_def, Option.bind_eq_bind, Option.bind_some,
+        Option.bind_eq_some_iff] at h
+      obtain ⟨b, _, h3⟩ := h
+      cases h3
+      rfl
+
+/-- the dispatch of `Store.mergeWith` on two lowest-collapsing stores is the same-kind merge -/
+theorem store_mergeWith_low (a b : DStore) (m : Nat) (ha : a.kind = .low n) (hb : b.kind = .low m) :
+    (Store.d a).mergeWith (.d b) = (a.mergeSame b).map .d := by
+  unfold Store.mergeWith
+  simp only [ha, hb]
+  by_cases he : b.isEmpty = true
+  · simp only [he, if_true]
+    unfold DStore.mergeSame
+    rw [if_pos he]; rfl
+  · simp only [he, Bool.false_eq_true, if_false, if_true]
+
+theorem lsim_mergeWith {x y : GLS n} {st so : Store} (h : LSim x st) (h' : LSim y so) :
+    LSim (StoreI.MergeWith x y : GLS n) (StoreI.MergeWith st so) := by
+  obtain ⟨d, hx, rfl, hk⟩ := h
+  obtain ⟨o, hy, rfl, hko⟩ := h'
+  obtain ⟨g⟩ := x
+  obtain ⟨g'⟩ := y
+  simp only at hx hy
+  subst hx hy
+  simp only [gls_mergeWith, gMergeWith, mergeFuel_ofLow, GenSketch.store_mergeWith,
+    store_mergeWith_low d o n hk hko]
+  rw [GenLow.mergeWith_rel _ n (n : Int) d o hk (Nat.le_refl _)]
+  cases hm : d.mergeSame o with
+  | none => exact ⟨d, rfl, rfl, hk⟩
+  | some d' => exact ⟨d', rfl, rfl, mergeSame_kind d d' o hk hm⟩
+
+/-- `reweight` only rewrites bins and count -/
+theorem reweight_collapsed (s t : DStore) (w : Rat) (h : s.reweight w = some t) :
+    t.isCollapsed = s.isCollapsed := by
+  unfold DStore.reweight at h
+  simp only [Option.bind_eq_bind, Option.bind_eq_some_iff] at h
+  obtain ⟨b, _, h2⟩ := h
+  cases h2; rfl
+
+theorem lsim_reweight {x : GLS n} {st : Store} (h : LSim x st) (w : F64) :
+    (StoreI.Reweight x w).2 = (StoreI.Reweight st w).2 ∧
+      LSim (StoreI.Reweight x w).1 (StoreI.Reweight st w).1 := by
+  simp only [gls_reweight, gReweight, GenSketch.store_reweight, GenSketch.storeReweight]
+  by_cases hle : F64.le w (.fin 0) = true
+  · simp only [hle, if_true]; exact ⟨trivial, h⟩
+  · simp only [hle, Bool.false_eq_true, if_false]
+    cases w with
+    | fin q =>
+      have hq : ¬ q ≤ 0 := by
+        intro hq; rw [GenSketch.le_fin_zero] at hle; exact hle (by simpa using hq)
+      have hpos : 0 < q := Rat.not_le.mp hq
+      obtain ⟨d, hx, rfl, hk⟩ := id h
+      obtain ⟨g⟩ := x
+      simp only at hx
+      subst hx
+      by_cases h1 : q = 1
+      · subst h1
+        simp only [toLow_DenseStore, GenDense.reweight_one]
+        have : (Store.d d).reweight 1 = some (.ok (.d d)) := by
+          unfold Store.reweight; rw [if_neg hq, if_pos rfl]
+        simp only [this]
+        exact ⟨trivial, h⟩
+      · simp only [toLow_DenseStore, GenDenseSketch.reweightFuel_ofGen]
+        rw [GenDense.reweight_rel _ d q hpos h1 (Nat.le_refl _)]
+        have hm : (Store.d d).reweight q = (d.reweight q).map (fun t => .ok (.d t)) := by
+          unfold Store.reweight; rw [if_neg hq, if_neg h1]
+        rw [hm]
+        cases hr : d.reweight q with
+        | none => exact ⟨rfl, d, rfl, rfl, hk⟩
+        | some d' =>
+          refine ⟨rfl, d', ?_, rfl, (GenDense.reweight_kind d d' q hr).trans hk⟩
+          simp only [toRes_some, toLow, reweight_collapsed d d' q hr]
+    | pinf => exact ⟨rfl, h⟩
+    | ninf => exact absurd rfl hle
+    | nan => exact ⟨rfl, h⟩
+
+/-! ### the `StoreSim` instance and the sketch-level corollaries -/
+
+/-- the regenerated lowest-collapsing store simulates the model's store of kind `.low n`; every index is
+    admissible -/
+def lowStoreSim (n : Nat) : StoreSim (GLS n) Store where
+  R := LSim
+  Adm := fun _ => True
+  isEmpty := lsim_isEmpty
+  totalCount := lsim_totalCount
+  minIndex := lsim_minIndex
+  maxIndex := lsim_maxIndex
+  keyAtRank := lsim_keyAtRank
+  addWithCount := fun h i _ c _ => lsim_addWithCount h i c
+  add := fun h i _ => lsim_add h i
+  clear := lsim_clear
+  copy := lsim_copy
+  mergeWith := lsim_mergeWith
+  reweight := lsim_reweight
+
+section sketch
+
+open DDS.Gen.Sketch
+
+variable {M : Type} [MapI M] [Inhabited M]
+
+omit [Inhabited M] in
+theorem low_routed (m : M) (v : F64) : RoutedG (lowStoreSim n) m v := ⟨fun _ => trivial, fun _ => trivial⟩
+
+/-- after ANY history of `AddWithCount` calls from
+    `NewDDSketch(m, NewCollapsingLowestDenseStore(n), NewCollapsingLowestDenseStore(n))` the two sketches are
+    related (stores exactly the images of the model's) and the errors agree — no side condition -/
+theorem low_runAdds (n : Nat) (m : M) (l : List (F64 × F64)) :
+    let a := runAdds (NewDDSketch m (⟨NewCollapsingLowestDenseStore (n : Int)⟩ : GLS n)
+      ⟨NewCollapsingLowestDenseStore (n : Int)⟩) l
+    let b := runAdds (NewDDSketch m (Store.new (.low n)) (Store.new (.low n))) l
+    a.2 = b.2 ∧ SkSimG (lowStoreSim n) a.1 b.1 :=
+  runAdds_paramG (lowStoreSim n) l (skSimG_new (lowStoreSim n) m lsim_new lsim_new)
+    (fun p _ => low_routed m p.1)
+
+/-- … and every observer agrees -/
+theorem low_history_observers (n : Nat) (m : M) (l : List (F64 × F64)) :
+    let a := runAdds (NewDDSketch m (⟨NewCollapsingLowestDenseStore (n : Int)⟩ : GLS n)
+      ⟨NewCollapsingLowestDenseStore (n : Int)⟩) l
+    let b := runAdds (NewDDSketch m (Store.new (.low n)) (Store.new (.low n))) l
+    a.2 = b.2 ∧ DDSketch.GetCount a.1 = DDSketch.GetCount b.1 ∧ DDSketch.IsEmpty a.1 = DDSketch.IsEmpty b.1 ∧
+    (∀ q, DDSketch.GetValueAtQuantile a.1 q = DDSketch.GetValueAtQuantile b.1 q) ∧
+    DDSketch.GetMinValue a.1 = DDSketch.GetMinValue b.1 ∧ DDSketch.GetMaxValue a.1 = DDSketch.GetMaxValue b.1 :=
+  history_observers_paramG (lowStoreSim n) m lsim_new lsim_new l (fun p _ => low_routed m p.1)
+
+end sketch
+
+end DDS.GenLowSketch
